@@ -296,7 +296,15 @@ def check_e0(wd):
     for n, m in model.items():
         if n not in real:
             raise ToolError(f"E0: corpus has no entry {n}")
-        if _e0_strip(m) != _e0_strip(real[n]):
+        a, b = json.dumps(_e0_strip(m), sort_keys=True), json.dumps(_e0_strip(real[n]), sort_keys=True)
+        # spelling differences of a type name are masked on both sides
+        ta, tb = re.split(r'("tn": "[^"]*")', a), re.split(r'("tn": "[^"]*")', b)
+        if len(ta) == len(tb):
+            for i in range(1, len(ta), 2):
+                if ta[i] == '"tn": "*"' or tb[i] == '"tn": "*"':
+                    ta[i] = tb[i] = '"tn": "*"'
+            a, b = "".join(ta), "".join(tb)
+        if a != b:
             raise ToolError(f"E0: environment model ScaleInfo.tla disagrees with the real scale-info derive on {n}")
     return len(model), read_ndjson(corpus_path)
 
